@@ -61,12 +61,20 @@ func genScenario(r *hx.Rand, i int) interface{} {
 		in.Servers = designed(r, i, wait)
 		return in
 	}
+	if j := i - 2*len(kinds); j < 3 { // a handler stuck in its upstream dial, next to a short tunnel
+		k := []string{"tcp", "sni", "inetaf"}[j]
+		in.Servers = []SrvIn{{Kind: k, Work: []*int{genEnd(r, wait, 0)}, Dial: r.Range(1, 2)}}
+		return in
+	}
 	n := r.Range(1, 4)
 	for j := 0; j < n; j++ {
 		s := SrvIn{Kind: r.Pick(kinds)}
 		s.Work = genWork(r, wait, 3)
 		if s.Kind == "inetaf" {
 			s.HWork = genWork(r, wait, 2)
+		}
+		if (s.Kind == "tcp" || s.Kind == "sni" || s.Kind == "inetaf") && r.Chance(1, 4) {
+			s.Dial = r.Range(1, 2)
 		}
 		in.Servers = append(in.Servers, s)
 	}
